@@ -373,7 +373,7 @@ def check(engine: Engine, tier: str, batch_seed: int, jobs: int, n_override: int
 
 
 def write_evidence(engine, tier, batch_seed, agg, wall, t_batch, new_viol, det_checked, missing, known_lines) -> None:
-    d = os.path.join(core.VERIF_DIR, "evidence")
+    d = os.environ.get("VERIF_EVIDENCE_DIR") or os.path.join(core.VERIF_DIR, "evidence")
     os.makedirs(d, exist_ok=True)
     runs = agg["runs"]
     ev = {
